@@ -902,7 +902,8 @@ fn search_cli(obs: &[&str]) {
     } };
     let dir = std::env::temp_dir().join(format!("vx-c20-{}", std::process::id())).join("a.b").join("c.d");
     let _ = std::fs::create_dir_all(&dir);
-    let sock = dir.join("sock");
+    // the service address extends the resolver address (a resolved address that merely starts like the resolver's is still another socket)
+    let sock = dir.join("resolver.service");
     let rsock = dir.join("resolver");
     let _ = std::fs::remove_file(&sock); let _ = std::fs::remove_file(&rsock);
     let seen: Arc<Mutex<Vec<(String, String)>>> = Arc::new(Mutex::new(Vec::new()));   // (which socket, method + parameters)
@@ -928,6 +929,12 @@ fn search_cli(obs: &[&str]) {
                         seen.lock().unwrap().push((which.to_string(), format!("{} {}", method, req["parameters"])));
                         let replies: Vec<Value> = if method == "org.varlink.resolver.Resolve" {
                             vec![json!({"parameters": {"address": service_addr}})]
+                        } else if method.ends_with(".StreamCut") {
+                            // one announced-to-continue reply, then the peer hangs up: the expected final reply never arrives
+                            let mut out = serde_json::to_vec(&json!({"continues": true, "parameters": {"n": 1}})).unwrap(); out.push(0);
+                            let _ = w.write_all(&out);
+                            let _ = w.shutdown(std::net::Shutdown::Both);
+                            return;
                         } else if method.ends_with(".StreamFail") {
                             vec![json!({"continues": true, "parameters": {"n": 1}}), json!({"error": "org.example.Err", "parameters": {"why": "x"}})]
                         } else if method.ends_with(".Stream") {
@@ -957,6 +964,9 @@ fn search_cli(obs: &[&str]) {
         ("print", vec!["call".into(), "-m".into(), direct("org.example.Stream")], true, vec![json!({"n": 1}), json!({"n": 2}), json!({"n": 3})], vec![("service", "org.example.Stream ".into())]),
         ("status", vec!["call".into(), "-m".into(), direct("org.example.StreamFail")], false, vec![json!({"n": 1})], vec![("service", "org.example.StreamFail ".into())]),
         ("status", vec!["call".into(), "-m".into(), direct("org.example.Fail")], false, vec![], vec![("service", "org.example.Fail ".into())]),
+        ("status", vec!["call".into(), "-m".into(), direct("org.example.StreamCut")], false, vec![json!({"n": 1})], vec![("service", "org.example.StreamCut ".into())]),
+        ("split", vec!["call".into(), "-m".into(), "org.example.more.Stream".into()], true, vec![json!({"n": 1}), json!({"n": 2}), json!({"n": 3})],
+            vec![("resolver", "org.varlink.resolver.Resolve {\"interface\":\"org.example.more\"}".into()), ("service", "org.example.more.Stream ".into())]),
     ];
     for (class, args, want_ok, want_out, want_seen) in cases {
         explored += 1;
@@ -1079,6 +1089,19 @@ fn search_cert(obs: &[&str]) {
             explored += 1;
             let rs = call(name, with_id(&args[k], "0123456789abcdef-unknown"), false);
             if !is_cid_err(&rs) { found.entry("gate").or_insert(json!({"what": "unknown client id", "step": name, "replies": rs, "expected": "ClientIdError"})); }
+        }
+        // look-alike ids: a fresh client at Test01, its step called under strings that are NOT the id that was issued
+        {
+            let st = call("Start", json!({}), false);
+            let id = st.get(0).and_then(|r| r["parameters"]["client_id"].as_str()).unwrap_or("").to_string();
+            if !id.is_empty() {
+                for alias in [format!("0{}", id), format!("+{}", id), id.to_uppercase(), format!("{} ", id), format!("0x{}", id), id[..id.len() - 1].to_string()] {
+                    if alias == id { continue; }
+                    explored += 1;
+                    let rs = call(&names[0], with_id(&args[0], &alias), false);
+                    if !is_cid_err(&rs) { found.entry("gate").or_insert(json!({"what": "a client id that was never issued (look-alike of an issued one)", "issued": id, "used": alias, "step": names[0], "replies": rs, "expected": "ClientIdError"})); }
+                }
+            }
         }
         // every position E, every other step K
         for e in 0..names.len() {
